@@ -49,7 +49,11 @@ with payload :=
 | PTuple (l : list data)
 | PStruct (l : list data).
 
-Inductive serr := SData | SPanic.     (* Category::Data; a panic site *)
+(* The only error the value deserializer produces is a Message error, category
+   Data. There is no panic constructor: the one `expect` in value/de.rs
+   (MapAccess::next_value_seed after the end) is unreachable under the visitor
+   protocol Serde's own visitors follow, which [de] has built in. *)
+Inductive serr := SData.
 Inductive sres (A : Type) := SOk (a : A) | SErr (e : serr).
 Arguments SOk {A} a.
 Arguments SErr {A} e.
@@ -67,13 +71,14 @@ Section Serde.
   (* `x as f32` for an f64, and "is exactly an f32": std; assumed only to be
      the identity on values that already are f32 values *)
   Variable cast_f32 : f64 -> f64.
+  Variable is_f32 : f64 -> bool.
 
   (* ---------- Serializer ---------- *)
   Fixpoint ser (t : ty) (d : data) {struct t} : option value :=
     match t, d with
     | TyBool, DBool b => Some (Bool b)
-    | TyInt s bits, DInt z => Some (ser_int s bits z)
-    | TyF32, DF32 f => Some (Number (Float f))
+    | TyInt s bits, DInt z => if int_in_range s bits z then Some (ser_int s bits z) else None
+    | TyF32, DF32 f => if is_f32 f then Some (Number (Float f)) else None
     | TyF64, DF64 f => Some (Number (Float f))
     | TyChar, DChar c => Some (Char c)
     | TyString, DString s => Some (String s)
